@@ -44,6 +44,9 @@ type modelStore struct {
 	Sources      []*sim.SrcStats
 	InFlight    map[string]int // op -> calls currently inside
 	MaxInFlight map[string]int
+	// Puts currently inside per key, and the first key for which two overlapped
+	putsInFlight map[string]int
+	PutOverlap   string
 	seq         func() int
 }
 
@@ -88,6 +91,17 @@ func (m *modelStore) enter(op string, ds []digest.Digest) (*modelCall, error) {
 	if m.InFlight[op] > m.MaxInFlight[op] {
 		m.MaxInFlight[op] = m.InFlight[op]
 	}
+	if op == "Put" {
+		if m.putsInFlight == nil {
+			m.putsInFlight = map[string]int{}
+		}
+		for _, k := range call.Digests {
+			m.putsInFlight[k]++
+			if m.putsInFlight[k] > 1 && m.PutOverlap == "" {
+				m.PutOverlap = k
+			}
+		}
+	}
 	if m.Fault != nil {
 		if err := m.Fault(op, ds); err != nil {
 			call.Err, call.Injected = err, true
@@ -108,6 +122,11 @@ func (m *modelStore) leave(call *modelCall, err error) {
 		call.EndT = s.Now()
 	}
 	m.InFlight[call.Op]--
+	if call.Op == "Put" {
+		for _, k := range call.Digests {
+			m.putsInFlight[k]--
+		}
+	}
 }
 
 func (m *modelStore) Get(ctx context.Context, d digest.Digest) buffer.Buffer {
